@@ -24,13 +24,23 @@ EXTENDS SoyExec
 
 CONSTANT Progs
 
+\* The values the failing writer's error can have.  The property speaks of ANY
+\* failing write, so the value is one more dimension of the fault plan; it is
+\* uninterpreted: no action of the design reads it (the property does not ask
+\* that the returned error be or wrap the writer's, so nothing is said about
+\* the returned error's value either).  A deviation that special-cases one
+\* value ("error_value_special_cased": a retry wrapper that loses
+\* "shortwrite") must violate the latch - only in the behaviours with that value.
+CONSTANT ErrIds
+
 VARIABLES pid,      \* index into Progs of the program of this behaviour
           phase,    \* 1 = fault-free run, 2 = faulted run
           ffout,    \* output of the fault-free run
           ffst,     \* status of the fault-free run ("ok" | "err")
-          ffcalls   \* write calls of the fault-free run
+          ffcalls,  \* write calls of the fault-free run
+          eid       \* the value of the error the failing writer returns ("none" in phase 1)
 
-mvars == <<vars, pid, phase, ffout, ffst, ffcalls>>
+mvars == <<vars, pid, phase, ffout, ffst, ffcalls, eid>>
 
 NoPlan == [kind |-> "none"]
 WithPlan(p, pl) == [p EXCEPT !.plan = pl]
@@ -40,18 +50,26 @@ PlansFor(w, b) == {NoPlan} \cup {[kind |-> "failAt", k |-> k] : k \in 0..w}
 
 MInit == /\ pid \in 1..Len(Progs)
          /\ StartOf(WithPlan(Progs[pid], NoPlan))
-         /\ phase = 1 /\ ffout = "" /\ ffst = "run" /\ ffcalls = 0
+         /\ phase = 1 /\ ffout = "" /\ ffst = "run" /\ ffcalls = 0 /\ eid = "none"
 
 MRun == /\ ~Terminated
         /\ Next
-        /\ UNCHANGED <<pid, phase, ffout, ffst, ffcalls>>
+        /\ UNCHANGED <<pid, phase, ffout, ffst, ffcalls, eid>>
 
 Switch == /\ phase = 1 /\ Terminated
           /\ phase' = 2 /\ ffout' = out /\ ffst' = status /\ ffcalls' = wr.calls
           /\ \E pl \in PlansFor(wr.calls, Len(out)) : ResetTo(WithPlan(prog, pl))
+          /\ eid' \in ErrIds
           /\ UNCHANGED pid
 
-MNext == MRun \/ Switch
+\* deviation: something between the interpreter and the writer treats one
+\* error value specially and the failure never becomes the render's error
+LoseErr == /\ "error_value_special_cased" \in Dev
+           /\ phase = 2 /\ eid = "shortwrite" /\ wr.failed /\ status = "err"
+           /\ status' = "ok"
+           /\ UNCHANGED <<prog, ctl, act, pend, bufs, out, wr, unbound, pid, phase, ffout, ffst, ffcalls, eid>>
+
+MNext == MRun \/ Switch \/ LoseErr
 
 MSpec == MInit /\ [][MNext]_mvars /\ WF_mvars(MNext)
 
@@ -72,6 +90,10 @@ Latch == (wr.failed /\ Terminated) => status = "err"
 LatchNow == wr.failed => status = "err"
 \* ... as a liveness property (checked under MSpec)
 LatchLive == [](wr.failed => <>(status = "err"))
+
+\* the latch for every error value but the one a deviation special-cases (used
+\* by the self-test to show that the deviation bites for that value only)
+LatchOtherValues == (wr.failed /\ Terminated /\ eid # "shortwrite") => status = "err"
 
 \* C12(2): what the writer accepted is a prefix of the fault-free output
 PrefixOk == phase = 2 => IsPrefixOf(out, ffout)
